@@ -30,6 +30,7 @@ EXTENDS SVecOracle, TLC
 Chk(p, n, a, c) == IF a THEN (IF c THEN <<p, n, 1>> ELSE <<p, n, 0>>) ELSE <<p, n, 2>>
 
 Vals(x)      == [i \in 1..Len(x.e) |-> x.e[i][1]]
+El(vals)     == [i \in 1..Len(vals) |-> <<vals[i], 0>>]      \* fresh elements: not moved-from
 NoneMoved(x) == \A i \in 1..Len(x.e) : x.e[i][2] = 0
 StN(x)       == IF x.st \in {0, -2} THEN 0 ELSE x.st
 Heap(x)      == StN(x) # 0
@@ -138,14 +139,18 @@ MutateChecks(cfg, pre, post, ln, c, want, req, o) ==
       big   == req > x.max
       r     == RegionOf(c, x)
   IN
-  { Chk("C01", "values",        ok, Vals(y) = want /\ NoneMoved(y)),
+  { Chk("C01", "values",        ok, y.e = want),
     Chk("C01", "return",        ok /\ o.ret >= 0, ln.ret = o.ret),
     Chk("C01", "throws-only-as-vector", TRUE,
                                 ln.out \in {"ok", "injected", "length_error", "terminate", "crash", "hang"}
                                 /\ (ln.out = "injected" => ln.k[1] > 0)),
-    Chk("C07", "allocator-kept", ok \/ ln.out = "length_error", y.al = x.al),
+    Chk("C07", "allocator-kept", ok \/ ln.out = "length_error", AllocEq(cfg, y.al, x.al)),
     Chk("C12", "length_error<=>too-big", ~Fatal(ln) /\ ln.k[1] = 0, (ln.out = "length_error") <=> big),
-    Chk("C12", "length_error-no-effect", ln.out = "length_error", Unchanged(x, y) /\ post.blocks = pre.blocks),
+    \* "unchanged" as C05 defines it: elements for every call; capacity() and data() too for the
+    \* std::vector-specified calls (the append extension may have grown its buffer before it found out)
+    Chk("C12", "length_error-no-effect", ln.out = "length_error",
+                                IF o.stdop THEN Unchanged(x, y) /\ post.blocks = pre.blocks
+                                           ELSE SameElems(x, y) /\ y.al = x.al),
     Chk("C10", "fits=>capacity,data-unchanged", ok /\ fits /\ o.c10,
                                 y.cap = x.cap /\ StN(y) = StN(x)),
     Chk("C10", "fits=>prefix-untouched", ok /\ fits /\ o.c10 /\ cfg.tracked /\ ~ln.evtrunc,
@@ -172,11 +177,11 @@ FrameChecks(pre, post, c) ==
   { Chk("C01", "other-container-unaffected", TRUE, post[Other(c)] = pre[Other(c)]) }
 
 \* value of an argument that may alias element i of the container itself (C11: as if copied first)
-ArgVal(x, alias, ln) == IF alias >= 0 THEN Vals(x)[alias + 1] ELSE ln.v[1]
+ArgVal(x, alias, ln) == IF alias >= 0 THEN x.e[alias + 1] ELSE <<ln.v[1], 0>>
 
 AliasChecks(pre, post, ln, c, alias, want) ==
   { Chk("C11", "alias-as-if-copied-first", ln.out = "ok" /\ alias >= 0,
-        Vals(post[c]) = want /\ NoneMoved(post[c])) }
+        post[c].e = want) }
 
 \* C15, result side: a single-pass range was consumed completely, exactly once
 InputChecks(ln, kind, len) ==
@@ -190,9 +195,10 @@ UnaryChecks(cfg, pre, post, ln) ==
       x   == pre[c]
       y   == post[c]
       sz  == Len(x.e)
-      vs  == Vals(x)
+      vs  == x.e           \* elements are <<value, movedFrom>> pairs; a relocated element keeps both
       a   == ln.a
       op  == ln.op
+      fv  == El(ln.v)      \* the fresh values the call was given
   IN
   FrameChecks(pre, post, c) \cup
   CASE op = "push_back" ->
@@ -200,19 +206,19 @@ UnaryChecks(cfg, pre, post, ln) ==
          MutateChecks(cfg, pre, post, ln, c, want, sz + 1, Opt(TRUE, TRUE, TRUE, TRUE, TRUE, sz, -1, TRUE))
          \cup AliasChecks(pre, post, ln, c, a[1], want)
     [] op = "push_back_m" ->
-         MutateChecks(cfg, pre, post, ln, c, Append(vs, ln.v[1]), sz + 1, Opt(TRUE, TRUE, TRUE, TRUE, TRUE, sz, -1, TRUE))
+         MutateChecks(cfg, pre, post, ln, c, Append(vs, fv[1]), sz + 1, Opt(TRUE, TRUE, TRUE, TRUE, TRUE, sz, -1, TRUE))
     [] op = "emplace_back_c" ->
          LET want == Append(vs, ArgVal(x, a[1], ln)) IN
          MutateChecks(cfg, pre, post, ln, c, want, sz + 1, Opt(TRUE, TRUE, TRUE, TRUE, TRUE, sz, sz, TRUE))
          \cup AliasChecks(pre, post, ln, c, a[1], want)
     [] op = "emplace_back_v" ->
-         MutateChecks(cfg, pre, post, ln, c, Append(vs, ln.v[1]), sz + 1, Opt(TRUE, TRUE, TRUE, TRUE, TRUE, sz, sz, TRUE))
+         MutateChecks(cfg, pre, post, ln, c, Append(vs, fv[1]), sz + 1, Opt(TRUE, TRUE, TRUE, TRUE, TRUE, sz, sz, TRUE))
     [] op \in {"insert", "emplace_c"} ->
          LET want == InsertAt(vs, a[1], <<ArgVal(x, a[2], ln)>>) IN
          MutateChecks(cfg, pre, post, ln, c, want, sz + 1, Opt(a[1] = sz, TRUE, TRUE, TRUE, TRUE, a[1], a[1], TRUE))
          \cup AliasChecks(pre, post, ln, c, a[2], want)
     [] op \in {"insert_m", "emplace_v"} ->
-         MutateChecks(cfg, pre, post, ln, c, InsertAt(vs, a[1], <<ln.v[1]>>), sz + 1,
+         MutateChecks(cfg, pre, post, ln, c, InsertAt(vs, a[1], fv), sz + 1,
                       Opt(a[1] = sz, TRUE, TRUE, TRUE, TRUE, a[1], a[1], TRUE))
     [] op = "insert_n" ->
          LET want == InsertAt(vs, a[1], Rep(a[2], ArgVal(x, a[3], ln))) IN
@@ -221,27 +227,27 @@ UnaryChecks(cfg, pre, post, ln) ==
          \cup AliasChecks(pre, post, ln, c, a[3], want)
     [] op = "insert_rng" ->
          \* a: pos, kind, len.  A single-pass range inserted mid-sequence may be buffered (C04 exception)
-         MutateChecks(cfg, pre, post, ln, c, InsertAt(vs, a[1], ln.v), sz + a[3],
+         MutateChecks(cfg, pre, post, ln, c, InsertAt(vs, a[1], fv), sz + a[3],
                       Opt(FALSE, TRUE, a[2] # 0, TRUE, TRUE, a[1], a[1], ~(a[2] = 0 /\ a[1] < sz)))
          \cup InputChecks(ln, a[2], a[3])
     [] op = "insert_il" ->
-         MutateChecks(cfg, pre, post, ln, c, InsertAt(vs, a[1], ln.v), sz + a[2],
+         MutateChecks(cfg, pre, post, ln, c, InsertAt(vs, a[1], fv), sz + a[2],
                       Opt(FALSE, TRUE, TRUE, TRUE, TRUE, a[1], a[1], TRUE))
     [] op = "append_rng" ->
-         MutateChecks(cfg, pre, post, ln, c, vs \o ln.v, sz + a[2],
+         MutateChecks(cfg, pre, post, ln, c, vs \o fv, sz + a[2],
                       Opt(TRUE, FALSE, a[1] # 0, TRUE, TRUE, sz, -1, TRUE))
          \cup InputChecks(ln, a[1], a[2])
     [] op = "append_il" ->
-         MutateChecks(cfg, pre, post, ln, c, vs \o ln.v, sz + a[1], Opt(TRUE, FALSE, TRUE, TRUE, TRUE, sz, -1, TRUE))
+         MutateChecks(cfg, pre, post, ln, c, vs \o fv, sz + a[1], Opt(TRUE, FALSE, TRUE, TRUE, TRUE, sz, -1, TRUE))
     [] op = "assign_n" ->
-         MutateChecks(cfg, pre, post, ln, c, Rep(a[1], ln.v[1]), a[1], Opt(FALSE, TRUE, TRUE, TRUE, TRUE, 0, -1, TRUE))
+         MutateChecks(cfg, pre, post, ln, c, Rep(a[1], fv[1]), a[1], Opt(FALSE, TRUE, TRUE, TRUE, TRUE, 0, -1, TRUE))
     [] op = "assign_rng" ->
-         MutateChecks(cfg, pre, post, ln, c, ln.v, a[2], Opt(FALSE, TRUE, a[1] # 0, TRUE, TRUE, 0, -1, TRUE))
+         MutateChecks(cfg, pre, post, ln, c, fv, a[2], Opt(FALSE, TRUE, a[1] # 0, TRUE, TRUE, 0, -1, TRUE))
          \cup InputChecks(ln, a[1], a[2])
     [] op \in {"assign_il", "opeq_il"} ->
-         MutateChecks(cfg, pre, post, ln, c, ln.v, a[1], Opt(FALSE, TRUE, TRUE, TRUE, TRUE, 0, -1, TRUE))
+         MutateChecks(cfg, pre, post, ln, c, fv, a[1], Opt(FALSE, TRUE, TRUE, TRUE, TRUE, 0, -1, TRUE))
     [] op = "set_vals" ->
-         MutateChecks(cfg, pre, post, ln, c, a, Len(a), Opt(FALSE, TRUE, TRUE, TRUE, TRUE, 0, -1, TRUE))
+         MutateChecks(cfg, pre, post, ln, c, El(a), Len(a), Opt(FALSE, TRUE, TRUE, TRUE, TRUE, 0, -1, TRUE))
     [] op = "erase" ->
          MutateChecks(cfg, pre, post, ln, c, EraseRange(vs, a[1], a[1] + 1), sz - 1,
                       Opt(FALSE, TRUE, TRUE, FALSE, TRUE, a[1], a[1], TRUE))
@@ -254,7 +260,7 @@ UnaryChecks(cfg, pre, post, ln) ==
          MutateChecks(cfg, pre, post, ln, c, <<>>, 0, Opt(FALSE, TRUE, TRUE, FALSE, TRUE, 0, -1, TRUE))
          \cup { Chk("C18", "clear-never-throws", TRUE, ln.out = "ok") }
     [] op = "resize" ->
-         MutateChecks(cfg, pre, post, ln, c, ResizeTo(vs, a[1], 0), a[1], Opt(TRUE, TRUE, TRUE, TRUE, TRUE, Min(sz, a[1]), -1, TRUE))
+         MutateChecks(cfg, pre, post, ln, c, ResizeTo(vs, a[1], <<0, 0>>), a[1], Opt(TRUE, TRUE, TRUE, TRUE, TRUE, Min(sz, a[1]), -1, TRUE))
     [] op = "resize_v" ->
          LET want == ResizeTo(vs, a[1], ArgVal(x, a[2], ln)) IN
          MutateChecks(cfg, pre, post, ln, c, want, a[1], Opt(TRUE, TRUE, TRUE, TRUE, TRUE, Min(sz, a[1]), -1, TRUE))
@@ -270,19 +276,19 @@ UnaryChecks(cfg, pre, post, ln) ==
          \cup { Chk("C02", "shrink_to_fit:capacity=max(size,N)", ln.out = "ok" /\ ~cfg.vector,
                            y.cap = Max(sz, NOf(cfg, c))) }
     [] op = "at" ->
-         { Chk("C01", "at:value", a[1] < sz, ln.out = "ok" /\ ln.ret = vs[a[1] + 1]),
+         { Chk("C01", "at:value", a[1] < sz, ln.out = "ok" /\ ln.ret = vs[a[1] + 1][1]),
            Chk("C01", "at:out_of_range", a[1] >= sz, ln.out = "out_of_range"),
            Chk("C01", "at:no-effect", TRUE, y = x /\ post.blocks = pre.blocks /\ NoEvents(ln.evs)) }
     [] op = "erase_val" ->
-         LET P(v) == v = a[1] IN
+         LET P(v) == v[1] = a[1] IN
          MutateChecks(cfg, pre, post, ln, c, RemoveIf(vs, P), 0, Opt(FALSE, FALSE, TRUE, FALSE, TRUE, 0, -1, TRUE))
          \cup { Chk("C16", "erase:removes-exactly-the-matches", ln.out = "ok",
-                    Vals(y) = RemoveIf(vs, P) /\ ln.ret = CountIf(vs, P)) }
+                    y.e = RemoveIf(vs, P) /\ ln.ret = CountIf(vs, P)) }
     [] op = "erase_if" ->
-         LET P(v) == PredHolds(a[1], a[2], v) IN
+         LET P(v) == PredHolds(a[1], a[2], v[1]) IN
          MutateChecks(cfg, pre, post, ln, c, RemoveIf(vs, P), 0, Opt(FALSE, FALSE, TRUE, FALSE, TRUE, 0, -1, TRUE))
          \cup { Chk("C16", "erase_if:removes-exactly-the-matches", ln.out = "ok",
-                    Vals(y) = RemoveIf(vs, P) /\ ln.ret = CountIf(vs, P)) }
+                    y.e = RemoveIf(vs, P) /\ ln.ret = CountIf(vs, P)) }
     [] op = "dtor" ->
          { Chk("C03", "destructor-completes", TRUE, ln.out = "ok" /\ ~y.p) }
     [] OTHER -> { Chk("INTERNAL", "unknown-op", TRUE, FALSE) }
@@ -297,10 +303,10 @@ CtorCommon(cfg, post, ln, c, want, al) ==
       need == Len(want)
       big  == need > cfg.max
   IN
-  { Chk("C01", "ctor:values",       ok, y.p /\ Vals(y) = want /\ NoneMoved(y)),
+  { Chk("C01", "ctor:values",       ok, y.p /\ y.e = El(want)),
     Chk("C01", "ctor:throws-only-as-vector", TRUE,
         ln.out \in {"ok", "injected", "length_error", "terminate", "crash", "hang"} /\ (ln.out = "injected" => ln.k[1] > 0)),
-    Chk("C07", "ctor:allocator",    ok, y.al = al),
+    Chk("C07", "ctor:allocator",    ok, AllocEq(cfg, y.al, al)),
     Chk("C04", "ctor:fits-inline=>no-allocate", ok /\ need <= n /\ ~cfg.vector, Len(Allocs(ln.evs)) = 0 /\ ~Heap(y)),
     Chk("C10", "ctor:at-most-one-allocation", ok /\ ln.op # "ctor_rng", Len(Allocs(ln.evs)) <= 1),
     Chk("C12", "ctor:length_error<=>too-big", ~Fatal(ln) /\ ln.k[1] = 0, (ln.out = "length_error") <=> big),
@@ -345,10 +351,10 @@ CtorFromChecks(cfg, pre, post, ln) ==
   IN
   CASE ln.op = "ctor_copy" ->
          LET al == IF cfg.isStd THEN 0 ELSE IF a[1] # 0 THEN a[1] ELSE IF cfg.soccc = 1 THEN xs.al + 50 ELSE xs.al IN
-         { Chk("C01", "copy-ctor:values",  ok, y.p /\ Vals(y) = Vals(xs) /\ NoneMoved(y)),
+         { Chk("C01", "copy-ctor:values",  ok, y.p /\ y.e = xs.e),
            Chk("C01", "copy-ctor:source-unchanged", TRUE, post[s] = xs),
-           Chk("C07", "copy-ctor:allocator=select_on_container_copy_construction", ok /\ a[1] = 0, y.al = al),
-           Chk("C07", "copy-ctor:allocator=supplied", ok /\ a[1] # 0, y.al = al),
+           Chk("C07", "copy-ctor:allocator=select_on_container_copy_construction", ok /\ a[1] = 0, AllocEq(cfg, y.al, al)),
+           Chk("C07", "copy-ctor:allocator=supplied", ok /\ a[1] # 0, AllocEq(cfg, y.al, al)),
            Chk("C04", "copy-ctor:fits-inline=>no-allocate", ok /\ sz <= nd /\ ~cfg.vector, Len(Allocs(ln.evs)) = 0 /\ ~Heap(y)),
            Chk("C10", "copy-ctor:at-most-one-allocation", ok, Len(Allocs(ln.evs)) <= 1),
            Chk("C06", "copy-ctor:failed=>no-object", ln.out = "injected", ~y.p),
@@ -359,10 +365,10 @@ CtorFromChecks(cfg, pre, post, ln) ==
              interch == a[1] = 0 \/ AllocEq(cfg, a[1], xs.al)
              must   == Heap(xs) /\ xs.cap > nd /\ interch
          IN
-         { Chk("C01", "move-ctor:values",  ok, y.p /\ Vals(y) = Vals(xs) /\ NoneMoved(y)),
-           Chk("C07", "move-ctor:allocator=source's", ok /\ a[1] = 0, y.al = al),
-           Chk("C07", "move-ctor:allocator=supplied", ok /\ a[1] # 0, y.al = al),
-           Chk("C07", "move-ctor:source-allocator-kept", ok, post[s].al = xs.al),
+         { Chk("C01", "move-ctor:values",  ok, y.p /\ y.e = xs.e),
+           Chk("C07", "move-ctor:allocator=source's", ok /\ a[1] = 0, AllocEq(cfg, y.al, al)),
+           Chk("C07", "move-ctor:allocator=supplied", ok /\ a[1] # 0, AllocEq(cfg, y.al, al)),
+           Chk("C07", "move-ctor:source-allocator-kept", ok, AllocEq(cfg, post[s].al, xs.al)),
            Chk("C09", "move-ctor:steals-when-permitted", ok /\ must /\ ~cfg.vector, Stolen(cfg, pre, post, ln, d, s)),
            Chk("C04", "move-ctor:steal=>no-allocate", ok /\ must, Len(Allocs(ln.evs)) = 0),
            Chk("C04", "move-ctor:fits-inline=>no-allocate", ok /\ sz <= nd /\ ~cfg.vector, Len(Allocs(ln.evs)) = 0),
@@ -391,12 +397,12 @@ BinaryChecks(cfg, pre, post, ln) ==
          LET repl == cfg.pocca /\ ~eq
              fits == szs <= xd.cap
          IN
-         { Chk("C01", "copy-assign:values", ok /\ ~self, Vals(yd) = Vals(xs) /\ NoneMoved(yd)),
+         { Chk("C01", "copy-assign:values", ok /\ ~self, yd.e = xs.e),
            Chk("C01", "copy-assign:source-unchanged", ~self, ys = xs),
            Chk("C01", "copy-assign:self=>no-change", self, yd = xd /\ NoEvents(ln.evs) /\ ok),
            Chk("C01", "copy-assign:throws-only-as-vector", TRUE, outOK),
            Chk("C07", "copy-assign:allocator-replaced-iff-POCCA", ok /\ ~self,
-               yd.al = (IF cfg.pocca /\ ~cfg.isStd THEN xs.al ELSE xd.al)),
+               AllocEq(cfg, yd.al, IF cfg.pocca /\ ~cfg.isStd THEN xs.al ELSE xd.al)),
            Chk("C10", "copy-assign:fits=>capacity,data-unchanged", ok /\ ~self /\ ~repl /\ fits,
                yd.cap = xd.cap /\ StN(yd) = StN(xd)),
            Chk("C04", "copy-assign:fits=>no-allocate", ok /\ ~self /\ ~repl /\ fits, Len(Allocs(ln.evs)) = 0),
@@ -405,12 +411,12 @@ BinaryChecks(cfg, pre, post, ln) ==
          LET interch == cfg.isStd \/ cfg.pocma \/ eq
              must == Heap(xs) /\ xs.cap > nd /\ interch
          IN
-         { Chk("C01", "move-assign:values", ok /\ ~self, Vals(yd) = Vals(xs) /\ NoneMoved(yd)),
+         { Chk("C01", "move-assign:values", ok /\ ~self, yd.e = xs.e),
            Chk("C01", "move-assign:self=>no-change", self, yd = xd /\ NoEvents(ln.evs) /\ ok),
            Chk("C01", "move-assign:throws-only-as-vector", TRUE, outOK),
            Chk("C07", "move-assign:allocator-replaced-iff-POCMA", ok /\ ~self,
-               yd.al = (IF cfg.pocma /\ ~cfg.isStd THEN xs.al ELSE xd.al)),
-           Chk("C07", "move-assign:source-allocator-kept", ok /\ ~self, ys.al = xs.al),
+               AllocEq(cfg, yd.al, IF cfg.pocma /\ ~cfg.isStd THEN xs.al ELSE xd.al)),
+           Chk("C07", "move-assign:source-allocator-kept", ok /\ ~self, AllocEq(cfg, ys.al, xs.al)),
            Chk("C09", "move-assign:steals-when-permitted", ok /\ ~self /\ must /\ ~cfg.vector, Stolen(cfg, pre, post, ln, d, s)),
            Chk("C04", "move-assign:steal=>no-allocate", ok /\ ~self /\ must, Len(Allocs(ln.evs)) = 0),
            Chk("C04", "move-assign:fits=>no-allocate", ok /\ ~self /\ interch /\ szs <= xd.cap /\ ~cfg.vector,
@@ -418,11 +424,12 @@ BinaryChecks(cfg, pre, post, ln) ==
     [] op = "swap" ->
          LET interch == cfg.isStd \/ cfg.pocs \/ eq IN
          { Chk("C01", "swap:contents-exchanged", ok /\ ~self,
-               Vals(yd) = Vals(xs) /\ Vals(ys) = Vals(xd) /\ NoneMoved(yd) /\ NoneMoved(ys)),
-           Chk("C01", "swap:self=>no-change", self, Vals(yd) = Vals(xd) /\ NoneMoved(yd) /\ yd.cap = xd.cap /\ StN(yd) = StN(xd) /\ ok),
+               yd.e = xs.e /\ ys.e = xd.e),
+           Chk("C01", "swap:self=>no-change", self, yd.e = xd.e /\ yd.cap = xd.cap /\ StN(yd) = StN(xd) /\ ok),
            Chk("C01", "swap:throws-only-as-vector", TRUE, outOK),
            Chk("C07", "swap:allocators-exchanged-iff-POCS", ok /\ ~self,
-               IF cfg.pocs /\ ~cfg.isStd THEN yd.al = xs.al /\ ys.al = xd.al ELSE yd.al = xd.al /\ ys.al = xs.al),
+               IF cfg.pocs /\ ~cfg.isStd THEN AllocEq(cfg, yd.al, xs.al) /\ AllocEq(cfg, ys.al, xd.al)
+                                          ELSE AllocEq(cfg, yd.al, xd.al) /\ AllocEq(cfg, ys.al, xs.al)),
            Chk("C09", "swap:heap-buffer-of-source-handed-over", ok /\ ~self /\ interch /\ Heap(xs) /\ ~cfg.vector,
                StN(yd) = StN(xs) /\ yd.cap = xs.cap /\ (cfg.tracked => RegionUntouched(ln.evs, RegionOf(s, xs)))),
            Chk("C09", "swap:heap-buffer-of-destination-handed-over", ok /\ ~self /\ interch /\ Heap(xd) /\ ~cfg.vector,
@@ -430,12 +437,12 @@ BinaryChecks(cfg, pre, post, ln) ==
            Chk("C04", "swap:interchangeable=>no-allocate", ok /\ ~self /\ interch, Len(Allocs(ln.evs)) = 0),
            Chk("C04", "swap:fits=>no-allocate", ok /\ ~self /\ szs <= xd.cap /\ szd <= xs.cap /\ interch, Len(Allocs(ln.evs)) = 0) }
     [] op = "append_copy" ->
-         MutateChecks(cfg, pre, post, ln, d, Vals(xd) \o Vals(xs), szd + szs, Opt(TRUE, FALSE, TRUE, TRUE, TRUE, szd, -1, TRUE))
+         MutateChecks(cfg, pre, post, ln, d, xd.e \o xs.e, szd + szs, Opt(TRUE, FALSE, TRUE, TRUE, TRUE, szd, -1, TRUE))
          \cup { Chk("C01", "append:source-unchanged", ~self, ys = xs) }
     [] op = "append_move" ->
-         MutateChecks(cfg, pre, post, ln, d, Vals(xd) \o Vals(xs), szd + szs, Opt(TRUE, FALSE, TRUE, TRUE, TRUE, szd, -1, TRUE))
+         MutateChecks(cfg, pre, post, ln, d, xd.e \o xs.e, szd + szs, Opt(TRUE, FALSE, TRUE, TRUE, TRUE, szd, -1, TRUE))
          \cup { Chk("C05", "append(&&):failed=>source-unchanged", ln.out = "injected" /\ StrongFault(cfg, ln), Unchanged(xs, ys)),
-                Chk("C07", "append(&&):source-allocator-kept", ok, ys.al = xs.al) }
+                Chk("C07", "append(&&):source-allocator-kept", ok, AllocEq(cfg, ys.al, xs.al)) }
     [] op = "cmp" ->
          { Chk("C16", "comparison-operators=std::vector", ok,
                ln.ret = CmpMask(Vals(xd), Vals(xs), ln.ret >= 512)),
